@@ -596,7 +596,7 @@ func init() {
 			b, _ := json.Marshal(v.Witness)
 			return "re-run: kvcheck one C05 quick " + v.Unit + "\nwitness: " + string(b)
 		},
-		BudgetQuick: 110, BudgetThorough: 900,
+		BudgetQuick: 150, BudgetThorough: 900,
 	})
 }
 
